@@ -579,6 +579,22 @@ pub fn run(name: &str) -> Option<bool> {
             let p = build_options(&o);
             crate::outcome::run(&p, &bytes(&["1", "--tag", "2"])).is_value()
         }
+        // C18: an adjacent group led by an env-backed argument never uses the variable
+        "adjacent_group_led_by_variable_backed_member" => {
+            let var = "BPAF_VERIF_WITNESS_F40";
+            std::env::set_var(var, "12");
+            let mut names = Names::long("alpha");
+            names.envs = vec![var.to_string()];
+            let g = Spec::Adj(vec![
+                arg(1, names, Ty::U32),
+                item(2, Names::long("beta"), Leaf::Switch),
+            ]);
+            let o = OptSpec::plain(Spec::Seq(vec![g]));
+            let p = build_options(&o);
+            let out = crate::outcome::run(&p, &[]);
+            std::env::remove_var(var);
+            !out.is_value()
+        }
         // C18: `long("alpha").env(V).argument::<u32>().many()` with V=zz refused `--alpha 1`
         "invalid_variable_defeats_repeated_item_on_the_line" => {
             let var = "BPAF_VERIF_WITNESS_F33";
